@@ -124,7 +124,23 @@ def check_value(v, pv, ver, path, errs, tables):
     elif k == 'EmbeddedObjectProperty':
         if not isinstance(v, dict): errs.append(f'{path}: object expected')
         else: check_object(v, ver, f'embedded:{pv["class"]}', tables, errs, path)
-    # ObservableProperty / ExtensionsProperty / STIXObjectProperty / MarkingProperty: checked structurally by the recursive object check below
+    elif k == 'ObservableProperty':
+        # the members of an observed-data `objects` container: each one an observable of THIS specification version, with that version's properties only
+        if not isinstance(v, dict): errs.append(f'{path}: dictionary of observables expected')
+        else:
+            for mk, mv in v.items():
+                if not isinstance(mv, dict) or not isinstance(mv.get('type'), str): errs.append(f'{path}.{mk}: observable object expected'); continue
+                if f'observables:{mv["type"]}' not in tables: errs.append(f'{path}.{mk}: {mv["type"]!r} is not an observable type of {ver} (custom content in strict output)'); continue
+                check_object(mv, ver, f'observables:{mv["type"]}', tables, errs, f'{path}.{mk}')
+    elif k == 'STIXObjectProperty':
+        if isinstance(v, dict) and isinstance(v.get('type'), str):
+            mver = '2.1' if v.get('spec_version') == '2.1' or (ver == '2.1' and 'spec_version' not in v and f'observables:{v["type"]}' in frozen('2.1') and 'created' not in v) else ('2.0' if 'spec_version' not in v else str(v.get('spec_version')))
+            if mver in ('2.0', '2.1'):
+                mt = frozen(mver)
+                cn = next((c for c in (f'objects:{v["type"]}', f'observables:{v["type"]}') if c in mt), None)
+                if cn is None: errs.append(f'{path}: bundle member of type {v["type"]!r} is not a specification type of {mver} (custom content in strict output)')
+                else: check_object(v, mver, cn, mt, errs, path)
+    # ExtensionsProperty / MarkingProperty: checked structurally by the recursive object check below
 
 
 GENERIC = {'SCO': 'observables', 'SDO': 'objects', 'SRO': 'objects'}
@@ -234,6 +250,16 @@ COCONSTRAINTS[('2.1', 'MalwareAnalysis')].append(at_least_one(['result', 'analys
 COCONSTRAINTS[('2.1', 'Location')].append(lambda d, errs, path: errs.append(f'{path}: location needs region, country or latitude+longitude')
                                           if not ('region' in d or 'country' in d or ('latitude' in d and 'longitude' in d)) else None)
 COCONSTRAINTS[('2.1', 'Location')].append(lambda d, errs, path: errs.append(f'{path}: latitude and longitude must come together') if ('latitude' in d) != ('longitude' in d) else None)
+def requires(dep, needs):
+    """`dep` may only be present together with every property of `needs` (presence, whatever the value: 0, false and '' are values)"""
+    def c(d, errs, path):
+        if dep in d and not all(n in d for n in needs): errs.append(f'{path}: {dep} is present without {[n for n in needs if n not in d]}')
+    return c
+COCONSTRAINTS[('2.1', 'Location')].append(requires('precision', ['latitude', 'longitude']))
+for _ver in ('2.0', '2.1'):
+    COCONSTRAINTS.setdefault((_ver, 'Artifact'), []).append(requires('url', ['hashes']))
+    COCONSTRAINTS.setdefault((_ver, 'Artifact'), []).append(requires('decryption_key', ['encryption_algorithm']) if _ver == '2.1' else (lambda d, errs, path: None))
+    COCONSTRAINTS.setdefault((_ver, 'EmailMessage'), []).append(lambda d, errs, path: errs.append(f'{path}: body_multipart is present although is_multipart is not true') if 'body_multipart' in d and d.get('is_multipart') is not True else None)
 COCONSTRAINTS[('2.1', 'Malware')].append(lambda d, errs, path: errs.append(f'{path}: a malware family needs a name') if d.get('is_family') is True and 'name' not in d else None)
 # STIX 2.0: whether Part 2 states the same order rules for indicator/observed-data/sighting is not certain from memory of the
 # text; the permissive reading is taken (not enforced), see DESIGN section 4.
